@@ -547,6 +547,9 @@ def cases(ctx):
         k += 1
         if ctx.mine(k):
             yield {"kind": "deep-queue", "n": n, "drain": drain, "socket_id": k % 3}
+    k += 1
+    if ctx.mine(k):
+        yield {"kind": "broadcast-callbacks", "n": 3}
     for op in ("recv", "close", "send"):
         k += 1
         if ctx.mine(k):
@@ -620,6 +623,52 @@ def _deep_queue(ctx, case):
     ctx.case(case, True)
 
 
+def _broadcast_callbacks(ctx, case):
+    """Free-running threads: callback delivery on a broadcast channel (use_callbacks=True, recv_callback overridden as the base
+    class documents): every broadcast message reaches the callback exactly once, in order."""
+    import threading
+    import netqasm.sdk.classical_communication.thread_socket.socket_hub as hubmod
+    from netqasm.sdk.classical_communication.thread_socket.broadcast_channel import ThreadBroadcastChannel
+    vs.uninstall()
+    hubmod.reset_socket_hub()
+    got, chans, err = [], {}, []
+
+    class Listener(ThreadBroadcastChannel):
+        def recv_callback(self, remote_app_name, msg):
+            got.append((remote_app_name, msg))
+
+    def mk(name, remote, cls, **kw):
+        try:
+            chans[name] = cls(name, [remote], timeout=20, **kw)
+        except BaseException as e:   # noqa
+            err.append(f"{name}: {type(e).__name__}: {e}")
+
+    ts = [threading.Thread(target=mk, args=("bob", "alice", Listener), kwargs={"use_callbacks": True}),
+          threading.Thread(target=mk, args=("alice", "bob", ThreadBroadcastChannel))]
+    [t.start() for t in ts]
+    [t.join(60) for t in ts]
+    if err or len(chans) != 2:
+        ctx.count("inconclusive_broadcast_callback_setup")
+        return ctx.case(case, False)
+    sent = [f"m{i}" for i in range(case["n"])]
+    for m in sent:
+        chans["alice"].send(m)
+    ctx.count("broadcast_callback_messages", len(sent))
+    polled = []
+    try:
+        while True:
+            polled.append(chans["bob"].recv(block=False))
+    except RuntimeError:
+        pass
+    if got != [("alice", m) for m in sent]:
+        ctx.fail(case, f"broadcast channel opened with use_callbacks=True: {len(sent)} messages were broadcast without error, its recv_callback "
+                       f"was called {len(got)} time(s) ({got[:3]}) and recv(block=False) returns {polled[:3]}: "
+                       f"{'every message is lost' if not got and not polled else 'not delivered exactly once through the callback'}",
+                 key="broadcast-channel:use_callbacks-messages-never-reach-the-channels-callback" if not got and not polled else None)
+    hubmod.reset_socket_hub()
+    return ctx.case(case, True)
+
+
 def _finalizer(ctx, case):
     """Own process (vf/harness/gc_probe.py): a socket that is cyclic garbage is finalized - and so disconnected - by the garbage
     collector at the k-th allocation after it was dropped, k = 0..runs-1, i.e. also at statements inside the hub's critical
@@ -658,6 +707,8 @@ def run_case(ctx, case):
         return _deep_queue(ctx, case)
     if case["kind"] == "finalizer":
         return _finalizer(ctx, case)
+    if case["kind"] == "broadcast-callbacks":
+        return _broadcast_callbacks(ctx, case)
     script = scenarios()[case["scenario"]]
     if case["kind"] == "replay":
         picks = list(case["choices"])
